@@ -120,6 +120,25 @@ EXTRA += [
             {"k": "ret", "e": {"k": "bin", "op": "+", "l": I(1), "r": {"k": "call", "f": _V("g"), "args": [{"k": "bin", "op": "-", "l": _V("n"), "r": I(1)}]}}}]},
         {"k": "call", "f": _V("g"), "args": [I(60)]}]},
     {"id": "det-many-statements", "prog": [{"k": "set", "n": "v%d" % i, "e": {"k": "bin", "op": "+", "l": I(i), "r": I(1)}} for i in range(160)] + [_V("v159")]},
+    # the value an exhausted iterator carries is unspecified, but it is made anew by every evaluation: a cell found in
+    # it is a fresh cell, whatever earlier runs of this or of other programs did to theirs (the result below is read
+    # from that cell before and after a write through it; it is not itself an exhausted (false, v) pair)
+    {"id": "det-exhausted-placeholder-cell", "prog": [
+        {"k": "set", "n": "it", "e": {"k": "iter", "e": {"k": "arr", "es": [{"k": "mut", "ty": T("int"), "e": I(1)}]}}},
+        {"k": "call", "f": _V("it"), "args": []},
+        {"k": "set", "n": "r", "e": {"k": "call", "f": _V("it"), "args": []}},
+        {"k": "set", "n": "c", "e": {"k": "tupat", "e": _V("r"), "i": 1}},
+        {"k": "set", "n": "before", "e": {"k": "deref", "e": _V("c")}},
+        {"k": "asg", "op": "+=", "l": _V("c"), "r": I(5)},
+        {"k": "tup", "es": [_V("before"), {"k": "deref", "e": _V("c")}]}]},
+    {"id": "det-exhausted-placeholder-cell-in-tuple", "prog": [
+        {"k": "set", "n": "it", "e": {"k": "iter", "e": {"k": "arr", "es": [{"k": "tup", "es": [{"k": "mut", "ty": T("int"), "e": I(1)}, I(2)]}]}}},
+        {"k": "call", "f": _V("it"), "args": []},
+        {"k": "set", "n": "r", "e": {"k": "call", "f": _V("it"), "args": []}},
+        {"k": "set", "n": "c", "e": {"k": "tupat", "e": {"k": "tupat", "e": _V("r"), "i": 1}, "i": 0}},
+        {"k": "set", "n": "before", "e": {"k": "deref", "e": _V("c")}},
+        {"k": "asg", "op": "=", "l": _V("c"), "r": I(1000)},
+        {"k": "tup", "es": [_V("before"), {"k": "deref", "e": _V("c")}]}]},
     _union_operand(1, [{"k": "for", "n": "x", "e": _V("it"), "b": {"k": "block", "body": []}}, {"k": "ret", "e": I(1)}]),
     _union_operand(2, [{"k": "ret", "e": {"k": "reduce", "it": _V("it"), "init": I(0), "f": _ADD}}]),
     _union_operand(3, [{"k": "ret", "e": {"k": "collect", "it": {"k": "map", "it": _V("it"), "f": _ID}}}]),
